@@ -133,10 +133,8 @@ def pseudoLegalCaptures (p : Pos) (k : Sq) : List Mv :=
 
 def betweenBB (a b : Sq) : BB := BitVec.ofNat 64 (between a b)
 
-/-- `MoveGen::checkEvasions<wtm>` (moveGen.cpp:148-250), `k` = own king square -/
-def checkEvasions (p : Pos) (k : Sq) : List Mv :=
-  let b := p.b
-  let w := p.wtm
+/-- the pieces giving check, as computed at the top of `checkEvasions` (the enemy king is never among them) -/
+def kingThreats (b : Board) (w : Bool) (k : Sq) : BB :=
   let o := !w
   let occ := occBB b
   let rookPieces := pcBB b (pc o 3) ||| pcBB b (pc o 2)
@@ -144,33 +142,50 @@ def checkEvasions (p : Pos) (k : Sq) : List Mv :=
   let kt0 := pcBB b (pc o 5) &&& knightAttacks k
   let kt1 := if rookPieces != 0 then kt0 ||| (rookPieces &&& rookAttacks k occ) else kt0
   let kt2 := if bishPieces != 0 then kt1 ||| (bishPieces &&& bishopAttacks k occ) else kt1
-  let kingThreats := kt2 ||| (pcBB b (pc o 6) &&& (if w then wPawnAttacks k else bPawnAttacks k))
-  let validTargets : BB :=
-    if kingThreats != 0 && (kingThreats &&& (kingThreats - 1)) == 0 then
-      match (squaresOf kingThreats).head? with
-      | some threatSq => kingThreats ||| betweenBB k threatSq
-      | none => 0
-    else 0
-  let tgt : Sq → BB := fun _ => ~~~colorBB b w &&& validTargets
+  kt2 ||| (pcBB b (pc o 6) &&& (if w then wPawnAttacks k else bPawnAttacks k))
+
+/-- `validTargets`: with exactly one checking piece, its square and the squares between it and the king -/
+def validTargets (b : Board) (w : Bool) (k : Sq) : BB :=
+  let kt := kingThreats b w k
+  if kt != 0 && (kt &&& (kt - 1)) == 0 then
+    match (squaresOf kt).head? with
+    | some threatSq => kt ||| betweenBB k threatSq
+    | none => 0
+  else 0
+
+/-- the pawn block of `checkEvasions` -/
+def evasionPawnMoves (p : Pos) (validTargets : BB) : List Mv :=
+  let b := p.b
+  let w := p.wtm
+  let occ := occBB b
   let pawns := pcBB b (pc w 6)
-  let capT := (colorBB b o &&& validTargets) ||| epMask p
-  pieceMoves b w 2 (fun sq => rookAttacks sq occ ||| bishopAttacks sq occ) tgt ++
-  pieceMoves b w 3 (fun sq => rookAttacks sq occ) tgt ++
-  pieceMoves b w 4 (fun sq => bishopAttacks sq occ) tgt ++
-  addMovesByMask k (kingAttacks k &&& ~~~colorBB b w) ++
-  pieceMoves b w 5 knightAttacks tgt ++
-  (if w then
+  let capT := (colorBB b (!w) &&& validTargets) ||| epMask p
+  if w then
     let m := (pawns <<< 8) &&& ~~~occ
     addPawnMovesByMask w (m &&& validTargets) (-8) true ++
     addPawnDoubleMovesByMask ((((m &&& maskRow3) <<< 8) &&& ~~~occ) &&& validTargets) (-16) ++
     addPawnMovesByMask w ((pawns <<< 7) &&& maskAToGFiles &&& capT) (-7) true ++
     addPawnMovesByMask w ((pawns <<< 9) &&& maskBToHFiles &&& capT) (-9) true
-   else
+  else
     let m := (pawns >>> 8) &&& ~~~occ
     addPawnMovesByMask w (m &&& validTargets) 8 true ++
     addPawnDoubleMovesByMask ((((m &&& maskRow6) >>> 8) &&& ~~~occ) &&& validTargets) 16 ++
     addPawnMovesByMask w ((pawns >>> 9) &&& maskAToGFiles &&& capT) 9 true ++
-    addPawnMovesByMask w ((pawns >>> 7) &&& maskBToHFiles &&& capT) 7 true)
+    addPawnMovesByMask w ((pawns >>> 7) &&& maskBToHFiles &&& capT) 7 true
+
+/-- `MoveGen::checkEvasions<wtm>` (moveGen.cpp:148-250), `k` = own king square -/
+def checkEvasions (p : Pos) (k : Sq) : List Mv :=
+  let b := p.b
+  let w := p.wtm
+  let occ := occBB b
+  let vt := validTargets b w k
+  let tgt : Sq → BB := fun _ => ~~~colorBB b w &&& vt
+  pieceMoves b w 2 (fun sq => rookAttacks sq occ ||| bishopAttacks sq occ) tgt ++
+  pieceMoves b w 3 (fun sq => rookAttacks sq occ) tgt ++
+  pieceMoves b w 4 (fun sq => bishopAttacks sq occ) tgt ++
+  addMovesByMask k (kingAttacks k &&& ~~~colorBB b w) ++
+  pieceMoves b w 5 knightAttacks tgt ++
+  evasionPawnMoves p vt
 
 /-! ## `pseudoLegalCapturesAndChecks` -/
 
